@@ -151,15 +151,22 @@ func opsListDir(dir string) []int {
 
 // opsSettledDir lists the directory once it has stopped changing (the unlink of
 // removeFileOnClose runs in a goroutine of its own).
-func opsSettledDir(dir string, rec *fileRecorder, closesBefore int) []int {
+func opsSettledDir(dir string, rec *fileRecorder, closesBefore int, failed bool) []int {
 	wait := 300
+	need := 3
 	if rec != nil && rec.countKind("close") > closesBefore {
 		wait = 3000 // a file was closed: an unlink may be on its way
+	}
+	if failed {
+		// after a failed attempt the clean-up (last DecRef of the abandoned file, its unlink) may
+		// come from another goroutine; on a loaded machine that takes milliseconds: the
+		// directory has to stay the same for 40 ms
+		need = 100
 	}
 	sleepMicros(wait)
 	last := opsListDir(dir)
 	stable := 0
-	for i := 0; i < 200 && stable < 3; i++ {
+	for i := 0; i < 5000 && stable < need; i++ {
 		sleepMicros(400)
 		cur := opsListDir(dir)
 		if fmt.Sprint(cur) == fmt.Sprint(last) {
@@ -437,7 +444,7 @@ func runOps(cfg Config, wishes []string, inj []opsInj, dir string) *opsRun {
 		fname2, fpos2, ids, ok, _ := footerID()
 		at.committed = fname2 != fname || fpos2 != fpos
 		at.content, at.valok = ids, ok
-		at.files = opsSettledDir(dir, rec, closesBefore)
+		at.files = opsSettledDir(dir, rec, closesBefore, perr != nil)
 		if run.problem != "" {
 			break
 		}
@@ -481,7 +488,7 @@ func runOps(cfg Config, wishes []string, inj []opsInj, dir string) *opsRun {
 		}
 	}
 	h.store = nil
-	run.dir = opsSettledDir(dir, rec, closesBefore-1)
+	run.dir = opsSettledDir(dir, rec, closesBefore-1, true)
 	// reopen with the same KeepFiles, no recorder, no failures
 	h2 := newH(cfg, dir)
 	h2.gating = 0
@@ -502,7 +509,7 @@ func runOps(cfg Config, wishes []string, inj []opsInj, dir string) *opsRun {
 		}
 		s2.Close()
 	}
-	run.dirAfter = opsSettledDir(dir, nil, 0)
+	run.dirAfter = opsSettledDir(dir, nil, 0, false)
 	return run
 }
 
